@@ -126,7 +126,7 @@ func (s *Service) OnHTTP(w http.ResponseWriter, r *http.Request) {
 	}
 
 	// Parse the channel
-	channel := security.ParseChannel([]byte("emitter/" + msg.Channel))
+	channel := security.ParseChannel([]byte(msg.Key + "/" + msg.Channel))
 	if channel.ChannelType == security.ChannelInvalid {
 		w.WriteHeader(http.StatusBadRequest)
 		return
